@@ -29,5 +29,5 @@ for r in rows:
     out.append("| %s | %s | %s | %s | %s |" % r)
 n_det = sum(1 for r in rows if r[3] == "detected"); n_miss = sum(1 for r in rows if r[3] == "missed"); n_na = sum(1 for r in rows if r[3] == "property not claimed"); n_obs = sum(1 for r in rows if r[3].startswith("obsolete"))
 summary = "%d seeded changes: %d detected, %d missed, %d target a property that is not claimed (not applicable), %d obsolete." % (len(rows), n_det, n_miss, n_na, n_obs)
-open(os.path.join(HERE, "seeded", "RESULTS.md"), "w").write("# Seeded changes vs. checks (quick tier)\n\n" + summary + "\n\n" + "\n".join(out) + "\n")
+open(os.path.join(HERE, "seeded", "RESULTS.md"), "w").write("# Seeded changes vs. checks (quick tier)\n\n" + summary + "\n\nEach row is the result of tools/run_seeds.py at the commit of /verif at which that seed was last run (seeded/_results/<seed>.json); seeds were re-run when a group was added because of them. All patches except the obsolete C17-m1 still apply to the final /repo HEAD.\n\n" + "\n".join(out) + "\n")
 print(summary)
